@@ -46,7 +46,7 @@ struct RunState {
 
 void prepareInputs(Ctx& ctx, const Scenario& sc) {
     for (int t = 0; t < 2; ++t) ctx.inputs[t].clear();
-    if (sc.kernel == "rot" || sc.kernel == "unif") {   // physical values in (0, 1]
+    if (sc.isNumeric()) {   // physical values in (0, 1]
         const double scale = 1.0 / double(1ULL << 40);
         for (size_t i = 0; i < sc.src.size(); ++i) ctx.inputs[0].push_back({{sc.src[i][0], sc.src[i][1], sc.src[i][2], double(wkWeight(sc.runKey, 0, long(i))) * scale}});
         for (size_t i = 0; i < sc.tgt.size(); ++i) ctx.inputs[1].push_back({{sc.tgt[i][0], sc.tgt[i][1], sc.tgt[i][2], double(wkWeight(sc.runKey, 1, long(i))) * scale}});
@@ -304,8 +304,8 @@ void recipeExec(RunState& rs) {
         runHistory(rs, *world, sc.history, sc.isTaskBased(), "run");
         rs.countersEachCall = false;
         setStage("compare");
-        if (sc.kernel == "rot" || sc.kernel == "unif")
-            compareViewsTol(ctx, world->view(), twin->view(), 1e-9, "value", "task-based executor vs sequential executor (floating-point kernel)");
+        if (sc.isNumeric())
+            compareViewsTol(ctx, world->view(), twin->view(), sc.isFloat() ? 1e-3 : 1e-9, "value", "task-based executor vs sequential executor (floating-point kernel)");
         else
             compareViews(ctx, world->view(), twin->view(), (1u << BUF_MULT) | (1u << BUF_LOCAL) | (1u << BUF_RHS), counter ? "counter-result" : "value",
                          std::string(counter ? "counter-wrapped kernel vs plain kernel" : "task-based executor vs sequential executor"));
